@@ -66,6 +66,7 @@ func optionsEngine() {
 			var schedule []string
 			e := NewExec(path, cur.boltOptions())
 			e.OnOpen = func(db *bolt.DB) { db.StrictMode = cur.Strict }
+			inFlight("options", map[string]any{"ops": opLines(ops), "pageSize": ps, "first_opts": cur, "schedule_seed": *flagSeed*7919 + int64(hi*10+sj)})
 			rp := func(i int) map[string]any {
 				return map[string]any{"ops": opLines(ops[:min(i+1, len(ops))]), "pageSize": ps, "schedule": schedule, "opts": cur}
 			}
@@ -181,6 +182,48 @@ func optionsEngine() {
 			}
 		}
 	}
+	// (2) the same history with a read transaction held across a FAILED commit (ErrMaxSizeReached)
+	// and later commits, under every freelist option combination: reader view, final content
+	// and Tx.Check must not depend on the options
+	nfc := 3
+	if *flagTier == "thorough" {
+		nfc = 40
+	}
+	for k := 0; k < nfc; k++ {
+		seed := *flagSeed*104729 + int64(k)
+		ps := []int{1024, 4096}[k%2]
+		type out struct {
+			o fcOpts
+			r fcResult
+		}
+		var outs []out
+		for _, nfs := range []bool{false, true} {
+			for _, ft := range []bolt.FreelistType{bolt.FreelistArrayType, bolt.FreelistMapType} {
+				o := fcOpts{PageSize: ps, NoFreelistSync: nfs, Freelist: ft, NoGrowSync: k%3 == 1}
+				rp := map[string]any{"scenario": "reader across a failed commit", "seed": seed, "opts": o.String()}
+				inFlight("options", rp)
+				r := runFailedCommitScenario(filepath.Join(dir, "fc.db"), seed, o)
+				rep.Evaluations += r.Steps
+				rep.count("failed-commit-scenario")
+				outs = append(outs, out{o, r})
+			}
+		}
+		sig := func(r fcResult) string { return r.Err + "|" + r.ReaderDiff + "|" + r.Final + "|" + r.Check }
+		for _, x := range outs[1:] {
+			if sig(x.r) != sig(outs[0].r) {
+				bad, good := x, outs[0]
+				if outs[0].r.Err+outs[0].r.ReaderDiff+outs[0].r.Check != "" {
+					bad, good = outs[0], x
+				}
+				rep.violation("C13", "monitor", "options-change-results:reader-across-failed-commit",
+					fmt.Sprintf("same history (seed %d), only the options differ: with [%s] err=%q reader=%q check=%q final=%s; with [%s] err=%q reader=%q check=%q final=%s",
+						seed, bad.o, bad.r.Err, truncate(bad.r.ReaderDiff, 120), truncate(bad.r.Check, 80), bad.r.Final, good.o, good.r.Err, truncate(good.r.ReaderDiff, 80), truncate(good.r.Check, 60), good.r.Final),
+					map[string]any{"scenario": "reader across a failed commit", "seed": seed, "opts_a": bad.o.String(), "opts_b": good.o.String()})
+				break
+			}
+		}
+	}
+	inFlight("options", nil)
 	rep.finish(start)
 }
 
